@@ -74,15 +74,42 @@ SCENARIOS = {
     'client': dict(
         src='<dtml-var p>/<dtml-var expr="_.this.p"><dtml-in seq><dtml-var expr="_.this.p + _.str(x)"></dtml-in>'
             '<dtml-with o><dtml-var expr="_.this.p">:<dtml-var p></dtml-with>', client=True),
+    # sort specifications with comparison functions from the thread's own namespace, in a process that has served many
+    # different requests before (whatever the package remembers per sort field, per expression, ... has grown large)
+    'sortspec': dict(
+        src='<dtml-in seq sort="x/cf,y/cmp"><dtml-var x></dtml-in>|<dtml-in seq sort_expr="sx"><dtml-var y>,</dtml-in>', served=130),
     'epfs': dict(
         src='%(in seq sort_expr="key")[%(x)s,%(in)]%(if a)[A%(else)[B%(if)]%(a)05d', epfs=True),
 }
 
 
+def _cf_asc(a, b):
+    return (a > b) - (a < b)
+
+
+def _cf_desc(a, b):
+    return (a < b) - (a > b)
+
+
+_served = {}
+
+
+def serve_requests(n):
+    """n earlier requests with sort specifications of their own, rendered by another template of the process"""
+    from DocumentTemplate.DT_HTML import HTML
+    t = _served.get('t')
+    if t is None:
+        t = _served['t'] = HTML('<dtml-in seq sort_expr="sx"><dtml-var x></dtml-in>')
+    seq = [O(x=1, y=2), O(x=2, y=1)]
+    for d in range(n):
+        t(seq=seq, sx='f%d/cmp,g%d/nocase/desc' % (d, d))
+
+
 def namespace(name, i):
     seq = [O(x=1, y=3, w=i), O(x=2, y=2, w=0), O(x=3, y=1, w=i)]
     ns = {'seq': seq, 'key': 'x' if i % 2 == 0 else 'y', 'rev': i % 2 == 0, 'a': i, 'o': O(p='p%d' % i), 'st': 1 + i % 2,
-          'emp': [], 'w': i, 'who': 'bob_&_%s\n\'%d\'' % ('ab'[i % 2], i)}
+          'emp': [], 'w': i, 'who': 'bob_&_%s\n\'%d\'' % ('ab'[i % 2], i),
+          'cf': _cf_asc if i % 2 == 0 else _cf_desc, 'sx': 'y/cf,x/cmp/desc' if i % 2 == 0 else 'x/cf,y'}
     if name == 'batch':
         ns['seq'] = ['ab%d' % i, 'cd%d' % i, 'ef%d' % i]
         ns['seq'] = [s for s in ns['seq']]
@@ -113,6 +140,8 @@ class Setup:
         self.n = n
         self.name = name
         self.cooked = cooked
+        if sc.get('served'):
+            serve_requests(sc['served'])
 
     def job(self, i):
         ns = namespace(self.name, i)
